@@ -153,21 +153,21 @@ def exit_guards(prog: Program, f: Func, node: ast.AST) -> list[Guard]:
             for prev in blk[:idx]:
                 for r in _exits_in(prev, (ast.Return,)):
                     gs = enclosing_guards(prog, f, r)
-                    out += [Guard(g.test, not g.polarity, 'return') for g in _upto(gs, prog, f, r, p)]
+                    out += [Guard(g.test, not g.polarity, 'return') for g in _upto(gs, prog, f, r, prev)]
                 for r in _loop_local_exits(prev):
                     via = 'break' if isinstance(r, ast.Break) else 'continue'
                     gs = enclosing_guards(prog, f, r)
-                    out += [Guard(g.test, not g.polarity, via) for g in _upto(gs, prog, f, r, p)]
+                    out += [Guard(g.test, not g.polarity, via) for g in _upto(gs, prog, f, r, prev)]
         if isinstance(p, (ast.For, ast.While, ast.AsyncFor)) and any(child is s for s in p.body):
             # later iterations depend on every break / return anywhere in the loop body
             for s in p.body:
                 for r in _exits_in(s, (ast.Return,)):
                     gs = enclosing_guards(prog, f, r)
-                    out += [Guard(g.test, not g.polarity, 'return') for g in _upto(gs, prog, f, r, p)]
+                    out += [Guard(g.test, not g.polarity, 'return') for g in _upto(gs, prog, f, r, s)]
                 for r in _loop_local_exits(s):
                     if isinstance(r, ast.Break):
                         gs = enclosing_guards(prog, f, r)
-                        out += [Guard(g.test, not g.polarity, 'break') for g in _upto(gs, prog, f, r, p)]
+                        out += [Guard(g.test, not g.polarity, 'break') for g in _upto(gs, prog, f, r, s)]
         if p is f.node:
             break
         child = p
